@@ -1671,6 +1671,38 @@ theorem unpaired_ok : ∃ lo hi : Rex,
   have : 0 ≤ 2 * (Unpaired.semF (⟨a12, a12⟩ : Unpaired Rex)).val := mul_nonneg (by norm_num) hsem.le
   linarith
 
+theorem conf95_probOk_XR : probOk (Confidence.twoSided (XR.fin 0.95)).quantile = true := by
+  refine Confidence.probOk_of_valid_XR _ ?_
+  simp [Confidence.validLevel, Confidence.level]; norm_num
+
+/-- a successful index computation on `XR`: ten observations, the median, critical value `0` -/
+theorem ciIndices_ok :
+    Quantile.ciIndices (fun _ => XR.fin 0) (.twoSided (XR.fin 0.95)) 10 (XR.fin 0.5) =
+      .ok (.twoSided 5 5) := by
+  have hq := conf95_probOk_XR
+  have hr : roundToNat (mul (XR.fin 0.5) (Scalar.ofNat 10 : XR)) = 5 := by
+    have : (0.5 : ℝ) * ((10 : ℕ) : ℝ) = ((5 : ℕ) : ℝ) := by norm_num
+    simp only [XR.ofNat_eq, XR.mul_fin_fin, XR.roundToNat_fin, this, round_natCast]
+    rfl
+  have h10 : ((10 : ℕ) : ℝ) ≠ 0 := by norm_num
+  have h10' : ((10 : ℕ) : ℝ) + 0 * 0 ≠ 0 := by norm_num
+  have h2 : (1 : ℝ) + 1 ≠ 0 := by norm_num
+  have h4 : (1 : ℝ) + 1 + (1 + 1) ≠ 0 := by norm_num
+  have hw : Proportion.ciWilson (fun _ => XR.fin 0) (.twoSided (XR.fin 0.95)) 10 5 =
+      .ok (.twoSided (XR.fin (1/2)) (XR.fin (1/2))) := by
+    rw [Proportion.ciWilson_of_guards _ _ (by norm_num) (by norm_num) (by norm_num), zValue_eq _ _ hq]
+    have harg : (0:ℝ) ≤ ((5:ℕ):ℝ) * (((10:ℕ):ℝ) - ((5:ℕ):ℝ)) / ((10:ℕ):ℝ) + 0 * 0 / (1 + 1 + (1 + 1)) := by
+      norm_num
+    simp only [Outcome.bind_ok, Proportion.wilsonCentre, Proportion.wilsonSpan, XR.ofNat_eq, XR.one_eq,
+      XR.mul_fin_fin, XR.add_fin_fin, XR.sub_fin_fin, XR.div_fin_fin_of_ne _ h2,
+      XR.div_fin_fin_of_ne _ h4, XR.div_fin_fin_of_ne _ h10', XR.div_fin_fin_of_ne _ h10,
+      XR.sqrt_fin_of_nonneg harg, Proportion.finish, Interval.new]
+    norm_num [liftI]
+  unfold Quantile.ciIndices
+  simp only [hr, hw, Outcome.bind_ok, Interval.toPair]
+  simp [Quantile.index]
+  norm_num
+
 end Examples
 
 end StatsCI
